@@ -87,10 +87,20 @@ def _datasets(ctx, n):
         "neg_only": np.array([-float(r.randrange(1, 9)) for _ in range(n)]),
         "u8": np.array([r.choice([0, 0, 1, 3, 200]) for _ in range(n)], dtype=np.uint8),
         "i16": np.array([r.randrange(-9, 10) for _ in range(n)], dtype=np.int16),
+        # narrow integer types with values close to their limits: the sum of two points of one cell no longer fits the
+        # type (a per-block histogram that accumulated in the dtype of the data would wrap around: finding F35)
+        "u8_big": np.array([r.randrange(100, 256) for _ in range(n)], dtype=np.uint8),
+        "i8_big": np.array([r.choice([-128, -100, -77, 90, 120, 127]) for _ in range(n)], dtype=np.int8),
+        "u16_big": np.array([r.randrange(40000, 65536) for _ in range(n)], dtype=np.uint16),
+        "i16_big": np.array([r.choice([-32768, -30000, 25000, 32767]) for _ in range(n)], dtype=np.int16),
+        "i32_big": np.array([r.choice([-2147483648, -2000000000, 1500000000, 2147483647]) for _ in range(n)], dtype=np.int32),
         "f32": np.array([r.randrange(-64, 64) / 4.0 for _ in range(n)], dtype=np.float32),
         # valid values next to a large finite fill value (65535): only the fill itself is missing
         "near_fill": np.array([r.choice([65535.0, 65534.5, 65535.5, 65534.0, 3.0, -2.5]) for _ in range(n)]),
     }
+    if ctx.quick:
+        for k in ("i8_big", "u16_big", "i32_big"):
+            del ds[k]
     return ds
 
 
